@@ -497,6 +497,9 @@ pub fn run(tier: Tier) -> i32 {
             r##"<svg><rect id="z" wh="3"/><var a="{{#z~w}}"/><var a="9"/><text text="[$a]"/></svg>"##),
         ("reuse-of-previous-container-as-written", r##"<svg><var v="1"/><a id="a1" data-w="$v"><text text="[$v]"/></a><reuse href="^" v="5"/><text text="[$v]"/></svg>"##,
             r##"<svg><var v="1"/><a id="a1" data-w="$v"><text text="[$v]"/></a><reuse href="#a1" v="5"/><text text="[$v]"/></svg>"##),
+        // sixth review round: ... also when it assigns the value the variable had before
+        ("retried-assignment-read-after-container/later-assignment-of-the-old-value", r##"<svg><var v="1"/><if test="1"><if test="1"><var v="3"/><rect xy="#z|h" wh="1"/></if><var v="1"/><rect id="z" wh="1"/></if><text text="[$v]"/></svg>"##,
+            r##"<svg><var v="1"/><if test="1"><rect id="z" wh="1"/><if test="1"><var v="3"/><rect xy="#z|h" wh="1"/></if><var v="1"/></if><text text="[$v]"/></svg>"##),
         ("retry-consumes-random-draws-toplevel", r##"<svg><rect xy="#z|h" wh="{{randint(1,9)}}"/><rect id="z" wh="3"/><var r="{{randint(1,1000)}}"/><text text="[$r]"/></svg>"##,
             r##"<svg><rect id="z" wh="3"/><rect xy="#z|h" wh="{{randint(1,9)}}"/><var r="{{randint(1,1000)}}"/><text text="[$r]"/></svg>"##),
     ];
